@@ -62,7 +62,7 @@ var c16Lists = []string{"To", "Bto", "CC", "BCC", "Audience"}
 
 func checkC16(w *World, c *Check, tier string) {
 	c.Exhaustive = true
-	c.Explanation = "Decides the structural clauses of flattening: (cover) in the closure of the Flatten*Properties entry points each of the fifteen flattened properties (actor, target, result, origin, instrument, object, attributedTo, replies, likes, shares; to, bto, cc, bcc, audience) is reassigned from a flattener applied to that same property of the same value — no property is flattened from another one and none is skipped; (frame) no other property of a vocabulary struct is written anywhere in those closures; (guard) every flattener that can replace an item by an identifier (a value obtained from GetLink/GetID of its argument) does so only on the true side of both an is-object test and a non-empty test of that identifier, so plain IRIs, links and id-less embedded objects are returned unchanged; (nil) by abstract interpretation the flatteners return nil-likes unchanged or as nil without faulting. NOT decided: the index alignment of the list variant with the de-duplicated copy, idempotence, equality of the produced IRI with the id for concrete values."
+	c.Explanation = "Decides the structural clauses of flattening: (cover) in the closure of the Flatten*Properties entry points each of the fifteen flattened properties (actor, target, result, origin, instrument, object, attributedTo, replies, likes, shares; to, bto, cc, bcc, audience) is reassigned from a flattener applied to that same property of the same value — no property is flattened from another one and none is skipped; (frame) no other property of a vocabulary struct is written anywhere in those closures; (guard) every flattener that can replace an item by an identifier (a value obtained from GetLink/GetID of its argument) does so only on the true side of both an is-object test and a non-empty test of that identifier, so plain IRIs, links and id-less embedded objects are returned unchanged; (nil) by abstract interpretation the flatteners return nil-likes unchanged or as nil without faulting. (align) a positional overwrite of list members takes its position from a loop over that very list. NOT decided: idempotence, equality of the produced IRI with the id for concrete values."
 	c.RuleText = "15 properties x {cover} + frame scan + guard obligations per identifier-returning flattener; exhaustive"
 	c.Trusted = []string{"go/ssa", "apcheck prov.go, abstract interpreter"}
 	c.floor("C16.cover", 15)
@@ -285,7 +285,7 @@ var c18Actor = []string{"Inbox", "Outbox", "Following", "Followers", "Liked", "P
 
 func checkC18(w *World, c *Check, tier string) {
 	c.Exhaustive = true
-	c.Explanation = "Decides the structural clauses of the merge: (guards) by abstract interpretation CopyItemProperties returns an error without reaching the merge dispatcher when either side is the untyped nil or a typed nil pointer, when the id comparison is forced to 'different', and when the two type names are forced to differ, and the dispatcher's unsupported-type exit returns an error without a write; (merge) every store `to.f = …` in the merge closures is one of: replace-if-set helper applied to (to.f, from.f) of the same f — the helper's own body returning the old value only when the new one is unset —, a direct copy of from.f that is not on the unset side of a test of from.f, or the unconditional id/type copy; a store on the unset side of its source's emptiness test (inverted guard) or fed from a different property is a finding; (cover) each merged property the statement lists has such a store for its type; (frame) nothing is written through `from`. NOT decided: the 2^n set/unset combinations on concrete values, wholesale replacement of nested structs (Source) — reported only when the helper returns the new struct under a condition that is not its emptiness."
+	c.Explanation = "Decides the structural clauses of the merge: (guards) by abstract interpretation CopyItemProperties returns an error without reaching the merge dispatcher when either side is the untyped nil or a typed nil pointer, when the id comparison is forced to 'different', and when the two type names are forced to differ, and the dispatcher's unsupported-type exit returns an error without a write; (merge) every store `to.f = …` in the merge closures is one of: replace-if-set helper applied to (to.f, from.f) of the same f — the helper's own body returning the old value only when the new one is unset —, a direct copy of from.f that is not on the unset side of a test of from.f, or the unconditional id/type copy; a store on the unset side of its source's emptiness test (inverted guard) or fed from a different property is a finding; (cover) each merged property the statement lists has such a store for its type; (frame) nothing is written through `from`; (reach) the routing layer never reports success on a path without a merge call. NOT decided: the 2^n set/unset combinations on concrete values, wholesale replacement of nested structs (Source) — reported only when the helper returns the new struct under a condition that is not its emptiness."
 	c.RuleText = "obligations: 6 refusal cases + every field store in the copy closures (merge) + listed properties per type (cover) + from-frame; exhaustive over stores"
 	c.Trusted = []string{"go/ssa", "apcheck prov.go, abstract interpreter"}
 	c.floor("C18.merge", 30)
